@@ -828,3 +828,57 @@ def gen_all_ops_status(rng, n):
             for st in [0, 0x3f, 0x20, 0x10] + [rng.getrandbits(6), rng.getrandbits(6)]:
                 t[2] = '%x' % st
                 yield ' '.join(t)
+
+
+# ------------------------------------------------------------------------------------------------ C15: every entry point, every kind of argument
+def c15_datum(rng):
+    k = rng.random()
+    if k < 0.30: return rng.getrandbits(128)
+    if k < 0.45: return special(rng)
+    if k < 0.55:      # all-ones / all-zeros / single-bit / field-boundary patterns
+        return rng.choice([0, M128, 1 << rng.randint(0, 127), M128 ^ (1 << rng.randint(0, 127)), (1 << 113) - 1, 1 << 113, (3 << 125), (3 << 125) | ((1 << 125) - 1),
+                           (0x1f << 122) | ((1 << 122) - 1), (0x1e << 122) | ((1 << 122) - 1), fin(rng.randint(0, 1), T34 - 1, rng.choice([QMIN, QMAX])),
+                           fin(rng.randint(0, 1), 1, rng.choice([QMIN, QMAX])), fin(0, T33, QMAX)])
+    return finite(rng)
+
+
+def c15_int(rng, w):
+    k = rng.random()
+    if k < 0.5: return rng.choice([0, 1, (1 << w) - 1, 1 << (w - 1), (1 << (w - 1)) - 1, (1 << (w - 1)) + 1, 2, 10, 6111, 6176, 12287, 12288, 40000,
+                                   (1 << w) - 6176, (1 << w) - 12288, (1 << w) - 40000, 1 << 31, (1 << 31) - 1, (1 << 32) - 1, 1 << 32]) % (1 << w)
+    return rng.getrandbits(w) if k < 0.8 else rng.getrandbits(rng.randint(1, w))
+
+
+def c15_string(rng):
+    k = rng.random()
+    if k < 0.30: return literal(rng, 300)
+    if k < 0.40: return rng.choice(['', '+', '-']) + rng.choice(GARBAGE)
+    if k < 0.50: return rng.choice(['', '+', '-']) + ''.join(ch.upper() if rng.random() < 0.5 else ch for ch in rng.choice(SPECIAL_SPELLINGS)) + rng.choice(['', '', 'x', '1', 'ñ', ' '])
+    if k < 0.65:
+        t = literal(rng, 120); p = rng.randint(0, len(t))
+        return t[:p] if rng.random() < 0.5 else t[:p] + rng.choice(['x', ' ', '.', 'e', 'E', '+', '-', 'ñ', '€', '𝟙', '/', ':', '٣', '\x00', '\t']) + t[p + 1:]
+    if k < 0.85:
+        return ''.join(rng.choice(['0', '1', '9', '+', '-', '.', 'e', 'E', 'a', 's', 'n', 'i', 'f', 'N', 'ñ', '€', '𝟙', ' ', '\t', '\x00', '/', ':']) for _ in range(rng.randint(0, 12)))
+    if k < 0.93: return ''.join(chr(rng.choice([rng.randint(1, 0x7f), rng.randint(0x80, 0x7ff), rng.randint(0x800, 0xd7ff), rng.randint(0x10000, 0x10ffff)])) for _ in range(rng.randint(1, 10)))
+    return rng.choice(['0', '9', '0.', '.0', '1e']) * rng.randint(1, 400)
+
+
+def gen_c15(rng, n):
+    import apimap
+    ops = sorted(apimap.OPSIG)
+    per = max(2, n // len(ops))
+    for op in ops:
+        sig = apimap.OPSIG[op]
+        for _ in range(per if sig else 1):
+            mode = rng.choice([0, 1, 2, 3, 4, 9]); st = rng.choice([0, 0, 0x3f, rng.getrandbits(6), rng.getrandbits(32)])
+            if sig == 's':
+                yield '%s %d %x %s' % (op, mode, st, hexs(c15_string(rng))); continue
+            if sig == 'l':
+                yield line(op, mode, st, *[c15_datum(rng) for _ in range(rng.randint(0, 8))]); continue
+            args = []; rest = sig
+            while rest:
+                if rest[0] == 'd': args.append(c15_datum(rng)); rest = rest[1:]
+                elif rest[0] == 'p': args.append('%x' % rng.randint(0, 19)); rest = rest[1:]
+                else:
+                    w = int(rest[1:3]); args.append('%x' % c15_int(rng, w)); rest = rest[3:]
+            yield line(op, mode, st, *args)
